@@ -147,7 +147,7 @@ def check_recovery(job, res, twin_rows, ctx):
                 res.violate(
                     "recover.load",
                     f"loading {which} for {role} epoch {epoch} after the crash raised {type(e).__name__}: {e}",
-                    role=role, exc=type(e).__name__, **ctx,
+                    role=role, exc=type(e).__name__, failed_epoch_in_update=(epoch == job.in_update), **ctx,
                 )
                 return False
             ms, os_ = ts.read_stamp(sc, m, o)
@@ -207,6 +207,9 @@ def crash_context(job, n_crashes, fault):
         "replaces_done": sum(1 for k, p in ops if k == "replace"),
         "removes_done": sum(1 for k, p in ops if k == "remove"),
         "orphan_present": bool(getattr(job, "_orphan_at_update_start", False)),
+        # the update removed a checkpoint file of its own epoch's paths that was there when it began (a file that
+        # was never there is another matter)
+        "destroyed_destination": bool(job.in_update) and any(p in getattr(job, "_files_at_update_start", ()) and p not in fs.files for p in paths_for(sc, job.in_update)),
     }
     return ctx
 
@@ -241,6 +244,7 @@ def run_job(sc, res, twin=None):
                         before = None if unique else fs.snapshot()
                         mark = len(fs.oplog)
                         job._cur_update_ops = []
+                        job._files_at_update_start = set(fs.files)
                         try:
                             cont = job.one_epoch()
                         except ts.Refused:
